@@ -49,7 +49,8 @@ def pipeline(ctx):
     t = ctx.tape
     e = C.E()
     max_ranks = 12 if ctx.tier == 'thorough' else 8
-    P = C.Problem(ctx, max_ranks=max_ranks)
+    deep = ctx.tier == 'thorough' and t.flag(1, 4)
+    P = C.Problem(ctx, max_ranks=max_ranks, max_frames=150 if deep else 60, max_traj=36 if deep else 24, max_len=12 if deep else 9)
     k, cutoff = P.draw_stop(ctx)
     algo = t.choice(('kcenters', 'kcenters_tri', 'hybrid0', 'hybrid'))
     n_iters = t.irange(1, 3) if algo == 'hybrid' else 0
